@@ -1,6 +1,7 @@
 /* pv_util.c — PRNG, result records, section runner, crash/sanitizer hooks */
 #define _GNU_SOURCE
 #include "pv.h"
+#include <sys/mman.h>
 #include <signal.h>
 #include <unistd.h>
 #include <fcntl.h>
@@ -320,6 +321,7 @@ static void on_signal(int sig) {
 }
 /* sanitizer callbacks (weak references resolved when the runtime is linked) */
 const char* __asan_get_report_description(void) __attribute__((weak));
+extern uint64_t pv_bsearch_calls[5] __attribute__((weak));
 void __asan_on_error(void);
 void __asan_on_error(void) {
     const char* d = __asan_get_report_description ? __asan_get_report_description() : "asan";
@@ -410,9 +412,39 @@ int pv_main(int argc, char** argv, const char* prop, const pv_section* secs, int
         pv_maxf((uint64_t)(slowest * 1000), "slowest_case_ms.%s", secs[s].name);        /* against the per-case watchdog */
     }
     pv_cur.section = "fini"; pv_cur.idx = 0; pv_cur.api = NULL;
+    if (getenv("PV_PREMAIN") && pv.shard == 0) {
+        static const struct { const char* prop; unsigned what; } W[] = { { "C01", 2 }, { "C03", 1 }, { "C04", 4 }, { "C06", 4 }, { "C07", 1 | 2 }, { "C12", 8 }, { "C13", 15 } };
+        pv_cur.section = "premain"; pv_cur.idx = 0;
+        for (unsigned i = 0; i < sizeof W / sizeof *W; ++i) if (!strcmp(W[i].prop, prop)) pv_premain_judge(prop, W[i].what);
+    }
     if (fini) fini();
+    if (pv_bsearch_calls) {       /* only linked in the bsearch flavours */
+        static const char* const M[5] = { "libc", "upper-middle-pivot", "random-pivot", "first-equal", "last-equal" };
+        for (int i = 0; i < 5; ++i) pv_countf((long long)pv_bsearch_calls[i], "bsearch.served_by.%s", M[i]);
+    }
     pv_countf((uint64_t)((now_s() - t0) * 1000), "ms.total");
     write_result(true, NULL, 0);
     final_written = 1;
     return 0;
+}
+
+/* n bytes of 'a' + terminator costing a few MiB of memory: one 2 MiB chunk of a memfd mapped over and over, private pages at both ends */
+char* pv_map_repeated(uint64_t n, uint64_t* maplen) {
+    const size_t CH = 2u << 20;
+    uint64_t total = ((n + 1 + CH - 1) / CH) * CH;
+    int fd = memfd_create("pv-huge", 0); if (fd < 0) return NULL;
+    if (ftruncate(fd, (off_t)CH) != 0) { close(fd); return NULL; }
+    char* fill = mmap(NULL, CH, PROT_READ | PROT_WRITE, MAP_SHARED, fd, 0); if (fill == MAP_FAILED) { close(fd); return NULL; }
+    memset(fill, 'a', CH); munmap(fill, CH);
+    char* base = mmap(NULL, total, PROT_NONE, MAP_PRIVATE | MAP_ANONYMOUS | MAP_NORESERVE, -1, 0);
+    if (base == MAP_FAILED) { close(fd); return NULL; }
+    for (uint64_t off = 0; off < total; off += CH) {
+        bool edge = off == 0 || off + CH >= total;
+        void* r = edge ? mmap(base + off, CH, PROT_READ | PROT_WRITE, MAP_PRIVATE | MAP_ANONYMOUS | MAP_FIXED, -1, 0) : mmap(base + off, CH, PROT_READ, MAP_SHARED | MAP_FIXED, fd, 0);
+        if (r == MAP_FAILED) { munmap(base, total); close(fd); return NULL; }
+        if (edge) memset(base + off, 'a', CH);
+    }
+    close(fd);
+    base[n] = 0; *maplen = total;
+    return base;
 }
